@@ -735,3 +735,104 @@ Proof.
   split; [exact union_dom_of_partition|]. split; [exact union_doms_separated|]. split; [exact union_given_dom|].
   intros gs NE x. rewrite (union_normalised gs 0 true NE x). unfold ubase. lia.
 Qed.
+
+(* ---- barycentric refinement: number of vertices = nv + n + number of edges ------------------------------------- *)
+Definition is_some (o : option nat) : bool := match o with Some _ => true | None => false end.
+Definition count_some (l : list (option nat)) : nat := length (filter is_some l).
+
+Lemma count_some_set l : forall i k, i < length l -> nth i l None = None ->
+  count_some (set_nth l i (Some k)) = S (count_some l).
+Proof.
+  unfold count_some. induction l as [|h r IH]; intros [|i] k Hi Hn; cbn in *; try lia.
+  - subst h. reflexivity.
+  - destruct h; cbn; rewrite IH by (auto; lia); reflexivity.
+Qed.
+Lemma count_some_all l : (forall i, i < length l -> nth i l None <> None) -> count_some l = length l.
+Proof.
+  unfold count_some. induction l as [|h r IH]; intros H; [reflexivity|].
+  pose proof (H 0 ltac:(cbn; lia)) as H0. cbn in H0. destruct h; [|congruence]. cbn. f_equal. apply IH.
+  intros i Hi. apply (H (S i)). cbn. lia.
+Qed.
+Lemma count_some_repeat_none k : count_some (repeat None k) = 0.
+Proof. unfold count_some. induction k; cbn; auto. Qed.
+
+Section BaryCount.
+Variables (vs : list vec) (es : list edge).
+Definition mono (a b : list (option nat)) : Prop := forall i, nth i a None <> None -> nth i b None <> None.
+
+Lemma bary_edge_count st ei st' id : ei < length (snd st) -> bary_edge vs es st ei = (st', id) ->
+  length (fst st') + count_some (snd st) = length (fst st) + count_some (snd st') /\
+  length (snd st') = length (snd st) /\ mono (snd st) (snd st') /\ nth ei (snd st') None <> None.
+Proof.
+  destruct st as [nvs e2v]. cbn [fst snd]. intros Hei. unfold bary_edge.
+  destruct (nth ei e2v None) as [k|] eqn:E; intro H; inversion H; subst st' id; cbn [fst snd].
+  - repeat split; try lia; [intros i Hi; exact Hi|rewrite E; discriminate].
+  - rewrite app_length, set_nth_length, count_some_set by assumption. cbn. repeat split; try lia.
+    + intros i Hi. destruct (Nat.eq_dec ei i) as [<-|Ne]; [congruence|]. rewrite nth_set_nth_neq by exact Ne. exact Hi.
+    + rewrite nth_set_nth_eq by exact Hei. discriminate.
+Qed.
+
+Lemma bary_elem_count st p st' ch : (forall l, l < 3 -> tget (snd p) l < length (snd st)) ->
+  bary_elem vs es st p = (st', ch) ->
+  length (fst st') + count_some (snd st) = S (length (fst st)) + count_some (snd st') /\
+  length (snd st') = length (snd st) /\ mono (snd st) (snd st') /\
+  forall l, l < 3 -> nth (tget (snd p) l) (snd st') None <> None.
+Proof.
+  destruct p as [e ee], st as [nvs e2v]. cbn [fst snd]. intros Ok. unfold bary_elem.
+  set (c := vscale (1 # 3)%Q (vadd (vadd (vat vs (vget e 0)) (vat vs (vget e 1))) (vat vs (vget e 2)))).
+  destruct (bary_edge vs es (nvs ++ [c], e2v) (tget ee 0)) as [s0 l0] eqn:E0.
+  destruct (bary_edge vs es s0 (tget ee 1)) as [s1 l1] eqn:E1.
+  destruct (bary_edge vs es s1 (tget ee 2)) as [s2 l2] eqn:E2.
+  intro H. inversion H; subst st' ch; clear H.
+  apply bary_edge_count in E0 as (C0 & L0 & M0 & S0); [|cbn [snd]; apply Ok; lia]. cbn [fst snd] in *.
+  apply bary_edge_count in E1 as (C1 & L1 & M1 & S1); [|rewrite L0; apply Ok; lia].
+  apply bary_edge_count in E2 as (C2 & L2 & M2 & S2); [|rewrite L1, L0; apply Ok; lia].
+  rewrite app_length in C0. cbn in C0. repeat split; try lia.
+  - intros i Hi. apply M2, M1, M0. exact Hi.
+  - intros l Hl. destruct l as [|[|[|l]]]; [| | |lia]; [apply M2, M1; exact S0|apply M2; exact S1|exact S2].
+Qed.
+
+Lemma bary_loop_count : forall l st st' chs, (forall p, In p l -> forall k, k < 3 -> tget (snd p) k < length (snd st)) ->
+  bary_loop vs es st l = (st', chs) ->
+  length (fst st') + count_some (snd st) = length l + length (fst st) + count_some (snd st') /\
+  length (snd st') = length (snd st) /\ mono (snd st) (snd st') /\
+  forall p, In p l -> forall k, k < 3 -> nth (tget (snd p) k) (snd st') None <> None.
+Proof.
+  induction l as [|p r IH]; intros st st' chs Ok H; cbn in H.
+  - inversion H; subst. repeat split; try lia; [intros i Hi; exact Hi|intros p []].
+  - destruct (bary_elem vs es st p) as [s ch] eqn:E. destruct (bary_loop vs es s r) as [s' chs'] eqn:E'.
+    inversion H; subst st' chs; clear H.
+    apply bary_elem_count in E as (C & L & M & V); [|intros k Hk; apply (Ok p); [left; reflexivity|exact Hk]].
+    apply IH in E' as (C' & L' & M' & V'); [|intros q Hq k Hk; rewrite L; apply (Ok q); [right; exact Hq|exact Hk]].
+    cbn [length]. repeat split; try lia.
+    + intros i Hi. apply M', M. exact Hi.
+    + intros q [<-|Hq] k Hk; [apply M', V; exact Hk|apply V'; assumption].
+Qed.
+End BaryCount.
+
+Theorem barycentric_vertex_count (vs : list vec) (els : list elem) (dom : list nat) :
+  length (g_vs (barycentric (vs, els, dom))) = length vs + length els + length (edges els).
+Proof.
+  unfold barycentric. cbn [g_vs g_els g_dom fst snd].
+  destruct (bary_loop vs (edges els) (vs, repeat None (length (edges els))) (combine els (element_edges els)))
+    as [[nvs e2v] nels] eqn:E. cbn [g_vs fst snd].
+  destruct (edges_once els) as (_ & _ & _ & OK & ALL).
+  assert (Ok : forall p, In p (combine els (element_edges els)) -> forall k, k < 3 ->
+            tget (snd p) k < length (snd (vs, repeat (@None nat) (length (edges els))))).
+  { intros p Hp k Hk. cbn [snd]. rewrite repeat_length.
+    apply (In_nth _ _ ((0, 0, 0), (0, 0, 0))) in Hp as [e [He Hn]].
+    rewrite combine_ee_length in He. rewrite combine_ee_nth in Hn by exact He. subst p. cbn [snd]. apply (OK e k He Hk). }
+  destruct (bary_loop_count vs (edges els) _ _ _ _ Ok E) as (C & L & _ & V). cbn [fst snd] in C, L, V.
+  rewrite repeat_length in L. rewrite count_some_repeat_none, combine_ee_length in C.
+  assert (A : count_some e2v = length e2v).
+  { apply count_some_all. intros i Hi. rewrite L in Hi.
+    destruct (ALL (nth i (edges els) dE) (nth_In _ _ Hi)) as (e & l & He & Hl & Hg).
+    destruct (OK e l He Hl) as [Lt Eq].
+    assert (X : eedge els e l = i).
+    { destruct (edges_once els) as (ND & _). apply (proj1 (NoDup_nth (edges els) dE) ND); [exact Lt|exact Hi|].
+      rewrite Eq. symmetry. exact Hg. }
+    rewrite <- X. unfold eedge.
+    apply (V (el els e, nth e (element_edges els) (0, 0, 0))); [|exact Hl].
+    rewrite <- combine_ee_nth by exact He. apply nth_In. rewrite combine_ee_length. exact He. }
+  lia.
+Qed.
